@@ -11,9 +11,11 @@ import (
 	"flag"
 	"fmt"
 	"os"
+	"path/filepath"
 	"runtime/debug"
 	"sort"
 	"strconv"
+	"strings"
 	"time"
 
 	"regexlint/internal/core"
@@ -114,8 +116,60 @@ func main() {
 		return
 	}
 	extra := map[string]any{}
+	if *tier == "quick" && *overlayFile == "" {
+		extra["canary"] = runCanary(total, pr, *prop, *repo, *verif)
+	}
 	res := total.Finish(*verif, seed, start, extra, pr.Assumptions, pr.Explanation, names)
 	os.Exit(res.Exit)
+}
+
+// runCanary applies the property's first catalogue mutant (tools/mutants.json) in memory
+// and requires the rules to report it: a rule set that has silently become vacuous fails
+// the check even though nothing is wrong with /repo.  If the edit no longer applies to
+// the current sources the canary is skipped (and says so in the evidence).
+func runCanary(total *core.Ctx, pr *rules.Prop, prop, repo, verif string) map[string]any {
+	out := map[string]any{"status": "no catalogue entry"}
+	b, err := os.ReadFile(filepath.Join(verif, "tools", "mutants.json"))
+	if err != nil {
+		out["status"] = "catalogue unreadable: " + err.Error()
+		return out
+	}
+	var cat []struct{ Prop, File, From, To, Note string }
+	if err := json.Unmarshal(b, &cat); err != nil {
+		out["status"] = "catalogue unparsable: " + err.Error()
+		return out
+	}
+	for _, m := range cat {
+		if m.Prop != prop {
+			continue
+		}
+		path := filepath.Join(repo, m.File)
+		src, err := os.ReadFile(path)
+		if err != nil || !strings.Contains(string(src), m.From) {
+			out["status"] = "edit no longer applies to the current sources: " + m.Note
+			continue
+		}
+		mutated := strings.Replace(string(src), m.From, m.To, 1)
+		ctx := runConfig(core.Config{Name: "canary", Dir: repo, Overlay: map[string][]byte{path: []byte(mutated)}}, pr, prop, "quick")
+		bad := 0
+		first := ""
+		for _, o := range ctx.Obligations() {
+			if o.Status != core.Discharged {
+				bad++
+				if first == "" {
+					first = o.Rule + " [" + o.Key + "]"
+				}
+			}
+		}
+		out = map[string]any{"mutant": m.Note + " (" + m.File + ")", "reported": bad, "first_report": first, "status": "detected"}
+		if bad == 0 {
+			out["status"] = "NOT detected"
+			total.Rule("CANARY", "the property's canary mutant (first entry of tools/mutants.json for it), applied in memory, must be reported by the rules", 0)
+			total.Unknown("canary / "+m.Note, 0, "the rules no longer report a change they are known to catch: they have become vacuous")
+		}
+		return out
+	}
+	return out
 }
 
 func isFlagSet(name string) bool {
